@@ -100,7 +100,18 @@ def for_seq_invariant(inv, havoc=None, kinds=None, defs=None, declare=None, allo
         if path.branch(n > 0):
             interp.assign(s.target, it.elem(n - 1), env)
         return None
-    return spec
+    return _guard(spec)
+
+
+def _guard(spec):
+    """a loop specification that refers to locals / fields the code no longer has (a harmless rename) is 'unsupported' - the check
+    becomes undecided (exit 2) -, never a checker crash and never a violation"""
+    def guarded(interp, s, env, *rest):
+        try:
+            return spec(interp, s, env, *rest)
+        except (KeyError, AttributeError, IndexError) as e:
+            raise Unsupported("the loop specification no longer matches the code at line %d: %s(%s)" % (s.lineno, type(e).__name__, e))
+    return guarded
 
 
 def while_invariant(inv, variant=None, havoc=None):
@@ -145,4 +156,4 @@ def while_invariant(inv, variant=None, havoc=None):
             raise PathEnd("loop body verified (cut)")
         interp.exec_block(s.orelse, env)
         return None
-    return spec
+    return _guard(spec)
